@@ -205,6 +205,7 @@ def run_shard(ctx):
         sel = rng.random(K) < rng.uniform(.1, .9)
         check(ctx, cv, sel, {'kind': 'maps', 'cycle_vect': cv, 'selection': sel}, 'random')
     idx = 0
+    buffers = {}   # one preallocated cycle-vector buffer per recording length, overwritten in place (as a caller re-using memory would)
     for K in range(1, MAXLEN[ctx.tier] + 1):
         lays = layouts(K)
         for bits in itertools.product((False, True), repeat=K):
@@ -214,6 +215,27 @@ def run_shard(ctx):
             sel = np.array(bits)
             for name, cv in lays:
                 check(ctx, cv, sel, {'kind': 'maps', 'cycle_vect': cv, 'selection': sel}, 'enum')
+            if idx % 3 == 0:
+                # the same structures written successively into one reused buffer
+                for name, cv in lays:
+                    perm = np.r_[cv[len(cv) // 2:], cv[:len(cv) // 2]]
+                    lab = np.full(len(cv), -1)
+                    nxt = 0
+                    for j in range(len(perm)):   # relabel in temporal order so that the labels stay 0..K-1 consecutive
+                        if perm[j] >= 0:
+                            if j == 0 or perm[j] != perm[j - 1]:
+                                lab[j] = nxt
+                                nxt += 1
+                            else:
+                                lab[j] = lab[j - 1]
+                    if nxt != K:
+                        continue
+                    buf = buffers.setdefault(len(cv), np.empty(len(cv), dtype=int))
+                    for content in (cv, lab):
+                        buf[:] = content
+                        ctx.count('structures_in_reused_buffer')
+                        check(ctx, buf, sel, {'kind': 'maps', 'cycle_vect': content.copy(), 'selection': sel,
+                                              'note': 'checked in a reused buffer that previously held another cycle vector of the same length'}, 'reused-buffer')
             if idx < 80 and idx % 16 == 0:
                 ctx.sample({'selection': [int(b) for b in bits], 'layouts': {nm: v.tolist() for nm, v in lays}})
     ctx.count('exhaustive_done')
